@@ -221,7 +221,6 @@ func ScratchDir(prefix string) string {
 	return dir
 }
 
-
 // RestartFromExitImage ends the node the way Store.Exit ends a process: the store object is closed (whatever that
 // does to its directory is discarded), the directory is replaced by the copy taken when Exit was called, and the
 // node is started again.
